@@ -13,11 +13,41 @@ def Keeps (s s' : State) (i : Nat) (c c' : Call) : Prop :=
   ((c.acked = true ∨ c.done = true) → c'.sends = c.sends ∧ logCount s'.log i = logCount s.log i)
 
 macro "keeps_close" hr:term : tactic =>
-  `(tactic| (simp [setCall, setNotif, finish, Call.finish, removeAck, Call.exitLoop, Call.retC, newCall, Keeps, $hr:term] <;>
+  `(tactic| (simp [setCall, setNotif, finish, Call.finish, removeAck, exitAck, Call.exitLoop, Call.retC, newCall, Keeps, Cfg.std_all $hr] <;>
       grind [Keeps, Call.retC]))
 
+/-- `NotifyAcks` only ever sets `acked` of a call. -/
+theorem ack_only_acked {cfg : Cfg} (i : Nat) (c : Call) (ids : List Nat) (s : State) (hc : s.calls i = some c) :
+    (stepAck cfg s ids).log = s.log ∧
+    ((stepAck cfg s ids).calls i = some c ∨ (stepAck cfg s ids).calls i = some { c with acked := true }) := by
+  have key : ∀ (ids : List Nat) (t : State),
+      (t.log = s.log ∧ (t.calls i = some c ∨ t.calls i = some { c with acked := true })) →
+      ((stepAck cfg t ids).log = s.log ∧
+        ((stepAck cfg t ids).calls i = some c ∨ (stepAck cfg t ids).calls i = some { c with acked := true })) := by
+    intro ids
+    refine stepAck_induct cfg
+      (P := fun t => t.log = s.log ∧ (t.calls i = some c ∨ t.calls i = some { c with acked := true })) ?_ ids
+    intro t id ⟨hl, hcall⟩
+    unfold ackOne
+    by_cases hk : t.ack id = true
+    · simp only [hk, if_true]
+      cases hci : t.calls id with
+      | none => exact ⟨hl, hcall⟩
+      | some ci =>
+        by_cases ha : ci.acked = true
+        · simp [ha, hl, hcall]
+        · simp only [ha, Bool.false_eq_true, if_false]
+          by_cases hid : i = id
+          · subst hid
+            refine ⟨by split <;> simp [setCall, removeAck, hl], ?_⟩
+            rcases hcall with h1 | h1 <;> rw [hci] at h1 <;> cases h1 <;> (split <;> simp [setCall, removeAck])
+          · refine ⟨by split <;> simp [setCall, removeAck, hl], ?_⟩
+            split <;> simp [setCall, removeAck, hid, hcall]
+    · simp only [hk]; exact ⟨hl, hcall⟩
+  exact key ids s ⟨rfl, Or.inl hc⟩
+
 set_option maxHeartbeats 4000000 in
-theorem keeps_step {cfg : Cfg} {s s' : State} {a : Action} (hr : cfg.recheck = true)
+theorem keeps_step {cfg : Cfg} {s s' : State} {a : Action} (hr : cfg.std = true)
     {i : Nat} {c : Call} (hc : s.calls i = some c) (hs : step cfg s a = some s') :
     s'.calls i ≠ none ∧ ∀ c', s'.calls i = some c' → Keeps s s' i c c' := by
   cases a <;> simp only [step] at hs
@@ -25,10 +55,11 @@ theorem keeps_step {cfg : Cfg} {s s' : State} {a : Action} (hr : cfg.recheck = t
     unfold stepStart at hs
     split at hs
     · simp at hs
-    · dsimp only at hs
+    · try dsimp only at hs
       split at hs <;> simp at hs <;> subst hs <;> keeps_close hr
   case sret j o =>
     unfold stepSret at hs
+    std_norm hr at hs
     split at hs
     · simp at hs
     · split at hs <;> try (simp at hs)
@@ -37,11 +68,12 @@ theorem keeps_step {cfg : Cfg} {s s' : State} {a : Action} (hr : cfg.recheck = t
       all_goals keeps_close hr
   case loopSel j b =>
     unfold stepLoop at hs
+    std_norm hr at hs
     split at hs
     · simp at hs
     · split at hs
       · simp at hs
-      · dsimp only at hs
+      · try dsimp only at hs
         split at hs
         all_goals (split at hs <;> try (simp at hs))
         all_goals (try (split at hs <;> try (simp at hs)))
@@ -49,6 +81,7 @@ theorem keeps_step {cfg : Cfg} {s s' : State} {a : Action} (hr : cfg.recheck = t
         all_goals keeps_close hr
   case waitSel j b =>
     unfold stepWait at hs
+    std_norm hr at hs
     split at hs
     · simp at hs
     · split at hs
@@ -60,6 +93,7 @@ theorem keeps_step {cfg : Cfg} {s s' : State} {a : Action} (hr : cfg.recheck = t
         all_goals keeps_close hr
   case dret j o =>
     unfold stepDret at hs
+    std_norm hr at hs
     split at hs
     · simp at hs
     · split at hs <;> simp at hs
@@ -67,6 +101,7 @@ theorem keeps_step {cfg : Cfg} {s s' : State} {a : Action} (hr : cfg.recheck = t
       keeps_close hr
   case gpass j =>
     unfold stepGpass at hs
+    std_norm hr at hs
     split at hs
     · simp at hs
     · split at hs <;> simp at hs
@@ -76,7 +111,7 @@ theorem keeps_step {cfg : Cfg} {s s' : State} {a : Action} (hr : cfg.recheck = t
     unfold stepNstart at hs
     split at hs
     · simp at hs
-    · dsimp only at hs
+    · try dsimp only at hs
       split at hs <;> simp at hs <;> subst hs <;> keeps_close hr
   case nrun nid =>
     unfold stepNrun at hs
@@ -102,8 +137,8 @@ theorem keeps_step {cfg : Cfg} {s s' : State} {a : Action} (hr : cfg.recheck = t
       · simp at hs
   case ack ids =>
     cases hs
-    simp [stepAck, hc, Keeps]
-    grind
+    obtain ⟨hl, hcall⟩ := ack_only_acked (cfg := cfg) i c ids s hc
+    rcases hcall with h1 | h1 <;> simp [h1, hl, Keeps]
   case cancel j =>
     unfold stepCancel at hs
     split at hs
@@ -115,7 +150,8 @@ theorem keeps_step {cfg : Cfg} {s s' : State} {a : Action} (hr : cfg.recheck = t
     cases hs
     simp [stepAdvance, hc, Call.tickTimer, Keeps]
     grind
-  case close => cases hs; simp [hc, Keeps]
-  case fclose => cases hs; simp [hc, Keeps]
+  case close k => split at hs <;> simp at hs; subst hs; simp [hc, Keeps]
+  case fclose k => split at hs <;> simp at hs; subst hs; simp [hc, Keeps]
+  case cret k => split at hs <;> simp at hs; subst hs; simp [hc, Keeps]
 
 end TdModel.Rpc
